@@ -397,7 +397,9 @@ fn judge_image(case: &Case, image: &Path, k: usize, last_kind: &str, variant: &'
                             if let (Some(first), true) = (offsets.first(), !offsets.is_empty()) {
                                 if *first > model.first_retained && *first != 0 {
                                     // starts later than the retained range: a hole at the front
-                                    let allowed = candidates.iter().any(|c| c.first_retained >= *first);
+                                    // a purge or a retention pass in flight removes whole segments from the front one
+                                    // by one: the statement does not make either of them atomic
+                                    let allowed = candidates.iter().any(|c| c.first_retained >= *first || (in_flight && c.msgs.is_empty()));
                                     if !allowed {
                                         ok = false;
                                         why = format!("first served offset {first}, retained from {}", model.first_retained);
@@ -430,6 +432,9 @@ fn judge_image(case: &Case, image: &Path, k: usize, last_kind: &str, variant: &'
                     let probe = MsgSpec { id: 900_000 + p.id as u128 + ((t.id as u128) << 8), salt: 77, len: 12, headers: 0 };
                     let mut messages = vec![probe.to_message()];
                     let sent = client.send_messages(&sid, &tid, &Partitioning::partition_id(p.id), &mut messages).await;
+                    // under no-wait confirmation the batch may still be on its way to the file (that window is
+                    // C12's subject): look once the background writer is idle
+                    w.sim.settle().await;
                     match sent {
                         Ok(()) => {
                             let after = client.poll_messages(&sid, &tid, Some(p.id), &Consumer::default(), &PollingStrategy::offset(next), 10, false).await;
